@@ -9,6 +9,56 @@ import (
 type Entry struct {
 	K []string `json:"k"`
 	V string   `json:"v"`
+	// entries of a map_reg file whose key is the regex the controller writes for a wildcard hostname,
+	// ^[^.]+<quoted suffix>#<quoted path>[$ | (/.*)?] : W is the host suffix (".h1.local"), P the path text, Re "closed" when the
+	// regex ends with $ and "open" otherwise (a regex is a search: without $ anything may follow).  W empty: not interpreted.
+	W  []string `json:"w"`
+	Re string   `json:"re"`
+	P  []string `json:"p"`
+}
+
+var reWildKey = regexp.MustCompile(`^\^\[\^\.\]\+((?:\\\.|[a-z0-9-])+)#(.*)$`)
+
+func unquoteMeta(s string) (string, bool) {
+	var sb strings.Builder
+	for i := 0; i < len(s); i++ {
+		c := s[i]
+		if c == '\\' && i+1 < len(s) {
+			i++
+			sb.WriteByte(s[i])
+			continue
+		}
+		if strings.ContainsRune(`.+*?()|[]{}^$`, rune(c)) {
+			return "", false
+		}
+		sb.WriteByte(c)
+	}
+	return sb.String(), true
+}
+
+// wildEntry interprets the key of a map_reg entry written for a wildcard hostname.
+func wildEntry(e *Entry, key string) {
+	e.W, e.P, e.Re = []string{}, []string{}, ""
+	m := reWildKey.FindStringSubmatch(key)
+	if m == nil {
+		return
+	}
+	suffix, ok := unquoteMeta(m[1])
+	if !ok {
+		return
+	}
+	path, re := m[2], "open"
+	switch {
+	case strings.HasSuffix(path, "(/.*)?"):
+		path = strings.TrimSuffix(path, "(/.*)?")
+	case strings.HasSuffix(path, "$") && !strings.HasSuffix(path, "\\$"):
+		path, re = strings.TrimSuffix(path, "$"), "closed"
+	}
+	text, ok := unquoteMeta(path)
+	if !ok {
+		return
+	}
+	e.W, e.P, e.Re = Chars(suffix), Chars(text), re
 }
 
 // Step is one rule of a frontend, in order.
@@ -86,7 +136,11 @@ func (r *Raw) FrontendNF(name string) *Frontend {
 				for _, e := range r.Files[mc[2]] {
 					fs := strings.Fields(e)
 					if len(fs) >= 2 {
-						st.Entries = append(st.Entries, Entry{K: Chars(fs[0]), V: fs[1]})
+						en := Entry{K: Chars(fs[0]), V: fs[1], W: []string{}, P: []string{}}
+						if st.Method == "reg" {
+							wildEntry(&en, fs[0])
+						}
+						st.Entries = append(st.Entries, en)
 					}
 				}
 				rest := m[3]
@@ -243,7 +297,7 @@ func (r *Raw) BackendNF(name string) *BackendNF {
 			for _, e := range r.Files[mc[2]] {
 				fs := strings.Fields(e)
 				if len(fs) >= 2 {
-					st.Entries = append(st.Entries, Entry{K: Chars(fs[0]), V: fs[1]})
+					st.Entries = append(st.Entries, Entry{K: Chars(fs[0]), V: fs[1], W: []string{}, P: []string{}})
 				}
 			}
 			if g := reNotFound.FindStringSubmatch(m[3]); g != nil {
